@@ -22,7 +22,7 @@ func RunPerNode(e *Env) {
 	R.Rule = "part A: every configuration-level call type (QC*, Async*, Corr*, CorrStream*, Multi, MultiPN) with and without a per-node function (identity, per-node distinct payloads, skipping any subset incl. all nodes), n in 1..6: " +
 		"after quiescence each server's entry log holds exactly one entry per targeted (call, node) whose received request digest equals digest(f(req, id)) (or digest(req)), none for skipped nodes; a quorum function with threshold = targeted count must succeed, " +
 		"a never-quorum function must yield Incomplete with errors+replies = targeted; part B: with every handler gated shut (holding its connection), send-waiting Uni/Multi/MultiPN must return (hang rule); " +
-		"with no-send-waiting they must return while the node's sender goroutine is held at the snd.beforeWrite hook (before any write or confirmation exists); then the gates open and delivery is exactly once, also for messages sent (context.Background, 4 goroutines, buffered and unbuffered send queue) while other goroutines issue calls with already-ended contexts on the same nodes; distinct = case parameters"
+		"with no-send-waiting they must return while the node's sender goroutine is held at the snd.beforeWrite hook (before any write or confirmation exists); then the gates open and delivery is exactly once, also for messages sent (context.Background, 4 goroutines, buffered and unbuffered send queue) while other goroutines issue calls with already-ended contexts on the same nodes; a connection reset (server stays up) striking while the sender is held before the write of a one-way message: the calls that follow return and are delivered exactly once; distinct = case parameters"
 	R.Assume("digest covers every request field (call, seq, target, kind, script, pad)")
 	rng := e.Rand(6)
 	ncase := e.Pick(2000, 100000)
@@ -55,6 +55,15 @@ func RunPerNode(e *Env) {
 			break
 		}
 		runOnewayCase(e, i, rand.New(rand.NewSource(rng.Int63())))
+	}
+	for rep := 0; rep < e.Pick(12, 200); rep++ {
+		if e.Of > 1 && rep%e.Of != e.Batch {
+			continue
+		}
+		if R.NumViolations() > 10 {
+			break
+		}
+		runOnewayAcrossStreamBreak(e, rep)
 	}
 }
 
